@@ -207,7 +207,7 @@ def walk_no_nested(node: ast.AST) -> Iterator[ast.AST]:
 
 
 class DB:
-    def __init__(self, repo: Optional[str] = None):
+    def __init__(self, repo: Optional[str] = None, flatten: bool = True):
         self.repo = repo or REPO
         self.modules: Dict[str, Module] = {}
         self.classes: Dict[str, ClassInfo] = {}      # qualname -> class
@@ -219,6 +219,13 @@ class DB:
         self._fields(deep=True)
         for f in self.functions.values():
             f._locals = None
+        self.flattened = False
+        if flatten and not os.environ.get("SA_NO_FLATTEN"):
+            from sa.flatten import Flattener
+            fl = Flattener(self)
+            fl.run()
+            self.flattened = True
+            self.inlined_helpers = dict(fl.inlined_sites)
         self._callers: Optional[Dict[str, List[Tuple[FuncInfo, ast.Call]]]] = None
 
     # ------------------------------------------------------------------ load
